@@ -18,6 +18,11 @@ func init() {
 	register("C18", checkC18)
 	register("C16", checkC16)
 	register("C09", checkC09)
+	register("C12", checkC12)
+	register("C14", checkC14)
+	register("C06", checkC06)
+	register("C11", checkC11)
+	register("C05", checkC05)
 }
 
 func main() {
